@@ -3,10 +3,11 @@ use crate::engine::{CaseResult, PropertyDef};
 use crate::host::{Host, Obs, Res};
 use crate::model::*;
 
+pub mod c02;
 pub mod c17;
 
 pub fn all() -> Vec<&'static PropertyDef> {
-    vec![&c17::DEF]
+    vec![&c02::DEF, &c17::DEF]
 }
 
 pub fn find(id: &str) -> Option<&'static PropertyDef> {
